@@ -757,6 +757,8 @@ class Mirror:
             for q in (101, 102):
                 if p[q] is not None and not self.fits(p[q], None):
                     return False
+                if p[q] is not None and self.nodes[p[q]].get("deco") and self.nodes[p[q]]["k"] != "leaf":
+                    return False      # Frame tests its header/footer for truth: a decorated empty container is true
             return self.fits(p[100], alloc - h - f)
         if k == "ovl":
             if alloc is None or alloc < 4:
@@ -788,7 +790,9 @@ class Mirror:
 
 
 class Gen:
-    def __init__(self, rng, W=1000, H=160, depth=4, size=3):
+    def __init__(self, rng, W=1000, H=160, depth=4, size=3, deco=(), pdeco=0.0):
+        self.deco_kinds = list(deco)      # decorations that may be put around children
+        self.pdeco = pdeco
         self.rng = rng
         self.W, self.H = W, H
         self.maxdepth = depth
@@ -796,6 +800,11 @@ class Gen:
         self.nodes = []
 
     def new(self, n):
+        r = self.rng
+        if self.deco_kinds and r.random() < self.pdeco:
+            n["deco"] = [r.choice(self.deco_kinds) for _ in range(r.choice([1, 1, 2]))]
+        if n["k"] == "lbox" and r.random() < 0.4:
+            n["slw"] = 1
         self.nodes.append(n)
         return len(self.nodes) - 1
 
@@ -951,6 +960,7 @@ class Gen:
             root = self.box(0, self.W, self.H)
             if self.nodes[root]["k"] == "leaf":
                 continue
+            self.nodes[root].pop("deco", None)
             m = Mirror(self.nodes, root, self.W, self.H)
             if m.fits():
                 return root, m
@@ -1258,6 +1268,8 @@ def oracle(case, res):
                     msgs.append(f"{tag} {key!r}: not a navigation key and handled by no leaf, but came back as None" + (": " + mv if mv else ""))
                 if key in ARROWS:
                     for m in c.get("moved", []):
+                        if m[4] == 0 and case.get("tight") and m[1] == "lbox":
+                            continue       # a ListBox that does not show all its items scrolls over unselectable ones by design
                         if m[4] == 0:
                             msgs.append(f"{tag} {key!r}: focus of {m[1]}#{m[0]} moved {m[2]} -> {m[3]} onto a child that is not selectable")
         # ---- clause: selectable() iff a child is, right after the contents were set ----
@@ -1281,7 +1293,7 @@ def oracle(case, res):
                     msgs.append(f"{tag}: set_focus_path(saved get_focus_path()) does not restore the focus: the deepest focus widget "
                                 f"is #{rr['now_deep']}, it was #{rr['saved_deep']} when the path was read")
         # ---- the focus path IS the chain of focus positions down to the leaf ----
-        if c.get("fp_chain") is not None and o["fp"] and o["fp"][0] != "E" or (c.get("fp_chain") is not None and o["fp"] == []):
+        if c.get("fp_chain") is not None and not (o["fp"] and o["fp"][0] == "E"):
             if o["fp"] != c["fp_chain"]:
                 msgs.append(f"{tag}: get_focus_path() is {o['fp']} but following .focus from the root gives {c['fp_chain']}")
         # ---- clause: focus validity in every container; a bad state is reported when it arises ----
@@ -1496,7 +1508,10 @@ class C08(core.Check):
             "presses at a cell showing a chosen leaf's marker, focus_position assignments valid and invalid, set_focus_path, "
             "save/restore of get_focus_path, contents edits through every C16 list operation, Frame header/footer replacement "
             "and deletion); geometry restricted to the everything-fits regime (given widths/heights, all ListBox items visible); "
-            "exhaustive single operations on one-level containers with <= 3 children of every selectability pattern; "
+            "exhaustive single operations on one-level containers with <= 3 children of every selectability pattern (ListBox over "
+            "both walkers); AttrMap around some children in the modelled stream; two ORACLE-ONLY streams outside the modelled "
+            "regime: non-transparent decorations (Padding, WidgetDisable, AttrMap, nested) around leaves and containers, and the same "
+            "trees on a screen of 1-8 rows (clipped Frame headers, scrolling list boxes); "
             "non-trivial = some focus position changed, a key was offered or an operation raised; distinct by hash of (case, outcome)")
     trusted_base = [
         "Coq 8.16.1 kernel (coqc; vm_compute only in closed examples and the _refuted witnesses)",
@@ -1508,13 +1523,15 @@ class C08(core.Check):
         "Python oracle and spy leaves in harness/props/c08.py",
     ]
     assumptions = [
-        "leaves are non-cursor widgets of one row without get_pref_col/move_cursor_to_coords; no decoration widgets between containers",
+        "leaves are non-cursor widgets without get_pref_col/move_cursor_to_coords; in the model AttrMap is the only decoration "
+        "(transparent; never around a container that is a Frame header/footer, which Frame tests for truth); Padding / WidgetDisable "
+        "decorations and screens too short for the tree are judged by the oracle only (no correspondence)",
         "Pile children are ('pack'), ('given', n) or ('weight', w) (weights share the rows of a Pile that is itself given a height: a "
         "'given' child of a Pile, a box column, or the root; in a flow Pile a weighted child is packed; no weights in a Pile that fills a "
         "Frame/Overlay slot); Columns children are ('given', w) or, for leaves, ('weight', w), and all columns fit; GridFlow cells are "
         "one-row leaves of the GridFlow's cell width and a GridFlow is never constructed at exactly its natural width (there urwid keeps "
         "the constructor's display widget with its pref_col state); every ListBox item is visible and has >= 1 row (ListBox up/down never "
-        "scroll: the scrolling view is C07's model); ListBox body is a SimpleFocusListWalker; no box-only widget below a ListBox",
+        "scroll: the scrolling view is C07's model); ListBox body is a SimpleFocusListWalker or a SimpleListWalker (plain list); no box-only widget below a ListBox",
         "page up / page down inside a ListBox and TreeListBox are not covered (cases with a ListBox never send page keys)",
         "every widget object occurs at most once in the tree (no aliasing, no cycles)",
         "exceptions raised by render() are recorded as observations, not judged (C07 judges the ListBox view)",
@@ -1541,6 +1558,8 @@ class C08(core.Check):
 
     # ---------- model wire format ----------
     def encode(self, case):
+        if case.get("tight") or any(d != "attr" for n in case["nodes"] for d in (n.get("deco") or [])):
+            return None      # outside the modelled regime (clipped geometry, non-transparent decorations): oracle only
         l = [case["W"], case["H"], case["root"], len(case["nodes"])]
         for n in case["nodes"]:
             l += enc_node(n)
@@ -1617,7 +1636,10 @@ class C08(core.Check):
         import itertools
         W, H = 60, 30
         keys = ["up", "down", "left", "right", "home", "end", "x", "tab"]
-        for kind in ("pile", "cols", "grid", "lbox"):
+        for kind in ("pile", "cols", "grid", "lbox", "slw"):
+            slw = kind == "slw"
+            if slw:
+                kind = "lbox"
             for n in range(0, 4):
                 for pat in itertools.product([0, 1], repeat=n):
                     for f in [None] + list(range(n)):
@@ -1631,6 +1653,8 @@ class C08(core.Check):
                             c.update(cw=10, hs=1, vs=1)
                         if kind == "lbox":
                             c.update(ht=H)
+                            if slw:
+                                c["slw"] = 1
                         nodes.append(c)
                         cid = len(nodes) - 1
                         if kind in ("cols", "grid"):
@@ -1650,8 +1674,22 @@ class C08(core.Check):
                             yield {"W": W, "H": H, "root": root, "nodes": nodes, "ops": [op, ["key", "down"]] if deep else [op]}
 
     def random_case(self, rng):
-        g = Gen(rng, depth=rng.choice([2, 3, 3, 4, 4]), size=rng.choice([1, 2, 3]))
+        """modelled regime: everything fits; transparent decorations (AttrMap) around some children"""
+        g = Gen(rng, depth=rng.choice([2, 3, 3, 4, 4]), size=rng.choice([1, 2, 3]), deco=("attr",), pdeco=0.12)
         return g.case()
+
+    def deco_case(self, rng):
+        """oracle only: decorations that are not transparent (Padding has its own cursor methods, WidgetDisable
+        overrides selectable()) around leaves and containers"""
+        g = Gen(rng, depth=rng.choice([2, 3, 3, 4]), size=rng.choice([1, 2, 3]), deco=("attr", "pad", "dis", "dis"), pdeco=0.3)
+        return g.case()
+
+    def tight_case(self, rng):
+        """oracle only: the same trees on a screen that is too short (clipped Frame headers, scrolling list boxes ...)"""
+        c = self.random_case(rng)
+        c["H"] = rng.choice([1, 2, 2, 3, 3, 4, 5, 6, 8])
+        c["tight"] = 1
+        return c
 
     def cases(self, rng, tier):
         yield from self.small_cases(False)
@@ -1660,6 +1698,10 @@ class C08(core.Check):
         n = 3500 if tier == "quick" else 40000
         for _ in range(n):
             yield self.random_case(rng)
+        for _ in range(n // 5):
+            yield self.deco_case(rng)
+        for _ in range(n // 6):
+            yield self.tight_case(rng)
 
     def search_cases(self, rng, tier):
         while True:
